@@ -259,7 +259,7 @@ func JudgeStep(st *Step, rep Reporter) Doc {
 		} else {
 			same := bytes.Equal(post.Raw, want.Body)
 			if ex.BodyJSON {
-				same = jsonEqual(post.Raw, want.Body)
+				same = jsonEqualExact(post.Raw, want.Body)
 			}
 			if !same {
 				rep(bodyProps(), "post.body", fmt.Sprintf("after %s on %s body is %q, want %q", o.Variant(), pre.Class(), trunc(post.Raw), trunc(want.Body)))
